@@ -368,7 +368,6 @@ def run(tier, seed):
                kernel_reevaluated=nk, samples=[dict(meta=metas[0], trace=vals[0][1][:10])], **hcov,
                open_items=["the allocate/alias/write skeletons of multi_solve, solve, fixed_point, newton are not modelled function by function; the monitor observes what torch actually did on the explored histories",
                            "heap model: reshape/view (torch decides between view and copy by strides), MultiTensor.__add__/__sub__ (compositions of the modelled clone and add_single), requires_grad_ and the einsum/solve layer are not operations of the heap model",
-                           "heap model: C18_clone_equal is proved for PatternedTensor.clone; that MultiTensor.clone denotes the value of its source is checked by the stream only",
                            "heap model: preservation of wf_state by every operation is evaluated on every step of the stream, not proved"])
     return cov, violations
 
@@ -385,7 +384,7 @@ def replay(path):
 
 MANIFEST = dict(
     level="proof",
-    text="Coq heap model of the container layer (Model/Heap.v: storages, PatternedTensor objects = storage + cells + layout + default, MultiTensor = key -> object reference; 25 operations transcribed from indices.py / multi.py with their sharing behaviour): C18_frame (every operation mutates only its target objects and writes only their storages), C18_clone_independent / C18_mclone_independent (after a clone EVERY operation sequence that only mutates objects made by/after the clone leaves every older object's denotation unchanged; by a watermark invariant over the sequence), C18_mclone_deep, C18_clone_equal, and the witnesses C18_view_shares, C18_getitem_shares, C18_iter_shares, C18_to_same_dtype_shares, C18_copy_into_view_writes_source, C18_add_single_aliases, C18_shallow_clone_refuted (= seeded/C18-d). Correspondence: random operation sequences run on the real objects and through the extracted model; after every step the storage partition (data_ptr), every dense value/default, every dictionary and the identity of every returned object are compared, violations are shrunk to a minimal sequence; the clone clause itself is judged on the real objects by the model's discipline. Also: ownership model of in-place updates -- a trace of (allocate | write) events accepted by trace_ok leaves every caller-owned storage unchanged and every written storage was allocated inside the call. A TorchFunctionMode monitor records the actual in-place / out= torch calls of every query and the Coq checker judges the trace; deep snapshots of every argument before/after each call and result digests (vs a fresh deep copy and vs earlier identical calls) are compared in Coq, over random interleavings of all listed queries on the same objects.",
+    text="Coq heap model of the container layer (Model/Heap.v: storages, PatternedTensor objects = storage + cells + layout + default, MultiTensor = key -> object reference; 25 operations transcribed from indices.py / multi.py with their sharing behaviour): C18_frame (every operation mutates only its target objects and writes only their storages), C18_clone_independent / C18_mclone_independent (after a clone EVERY operation sequence that only mutates objects made by/after the clone leaves every older object's denotation unchanged; by a watermark invariant over the sequence), C18_mclone_deep, C18_clone_equal / C18_mclone_equal (a clone denotes what its source denotes), and the witnesses C18_view_shares, C18_getitem_shares, C18_iter_shares, C18_to_same_dtype_shares, C18_copy_into_view_writes_source, C18_add_single_aliases, C18_shallow_clone_refuted (= seeded/C18-d). Correspondence: random operation sequences run on the real objects and through the extracted model; after every step the storage partition (data_ptr), every dense value/default, every dictionary and the identity of every returned object are compared, violations are shrunk to a minimal sequence; the clone clause itself is judged on the real objects by the model's discipline. Also: ownership model of in-place updates -- a trace of (allocate | write) events accepted by trace_ok leaves every caller-owned storage unchanged and every written storage was allocated inside the call. A TorchFunctionMode monitor records the actual in-place / out= torch calls of every query and the Coq checker judges the trace; deep snapshots of every argument before/after each call and result digests (vs a fresh deep copy and vs earlier identical calls) are compared in Coq, over random interleavings of all listed queries on the same objects.",
     note="Clone clause: proved for all operation sequences on the heap model of the container layer, whose sharing behaviour is compared with the real objects after every step of random sequences (notes/C18.md lists the 25 modelled operations and what is outside: reshape/view, __add__/__sub__, requires_grad_, the einsum/solve layer). Query part: partial -- which torch calls alias or write inside sum_product/viterbi/... is runtime behaviour; the model covers the ownership discipline, the monitor what torch did on the explored histories. Trusted: the pattern-layer parameters (layouts, selected positions, memory format) the harness hands to the heap model, the monitor's classification of in-place calls (name ends with '_' or out=), sha1 digests, harness. Side finding (not a C18 violation): MultiTensor.copy_ raises RuntimeError('dictionary changed size during iteration') whenever the destination has a key the source lacks (after deleting the first such key); modelled as it is.",
     technique="Coq heap model (separation/watermark invariant by induction over operation sequences) + model-vs-implementation sharing/value comparison with shrinking; Coq ownership-model theorem + runtime write monitor and snapshot oracle judged by the extracted checker",
     design_ref="DESIGN.md section 6, C18")
